@@ -263,7 +263,10 @@ Inductive cre :=
 | ReContains (s : str)      (* re.compile(re.escape(s)) *)
 | ReStarts (s : str)        (* re.compile("^" + re.escape(s)) *)
 | ReEndsZ (s : str)         (* re.compile(re.escape(s) + r"\Z") *)
-| ReSegStart (s : str).     (* re.compile("(^|/)" + re.escape(s)) *)
+| ReSegStart (s : str)      (* re.compile("(^|/)" + re.escape(s)) *)
+| ReTable (l : list str).   (* ANY user-compiled regex (flags, inline flags, groups, backreferences): the set of the names of the
+                               case on which the pattern's OWN p.search(name) succeeds, evaluated by the harness - the pattern stays
+                               an opaque predicate for the model, as in the theorems *)
 
 Definition re_search (r : cre) (name : str) : bool :=
   match r with
@@ -271,6 +274,7 @@ Definition re_search (r : cre) (name : str) : bool :=
   | ReStarts s => starts_with s name
   | ReEndsZ s => ends_with s name
   | ReSegStart s => starts_with s name || contains (SLASH :: s) name
+  | ReTable l => existsb (str_eqb name) l
   end.
 
 (* ---------- correspondence cases ---------- *)
